@@ -43,8 +43,14 @@ claim("C18", "other",
       "Trusted: clang 14 + tbfscan, the frozen operator role table (which parameter is which count), sympy polynomial normal form, g++ for the witness.",
       "forwarding / increment-polynomial / field-coverage rules over the clang AST + must-compile merge witness", "DESIGN.md §2 C18")
 
+claim("C09", "other",
+      "Type-level and who-may-call clauses of target/source mode: (1) compile witness - the source tree has zero result values and empty locals, the target tree empty multipoles, the one-sided near-field operator has no source-result slot and sees source/target headers and data as const (probe kernel instantiated through the sequential and OpenMP target/source executors), so no storage exists in which a source could receive a result, for every input; "
+      "(2) the target/source executors call only the one-sided near-field wrapper, build the neighbour list unfiltered, merge in-group part and self list and map onto SOURCE groups with the TARGET group as working group (M2L likewise), P2M/M2M touch only source containers and L2L/L2P only target containers - from argument-origin summaries; (3) the OpenMP variant obeys the C03 lifetime/dependence rules. Exactly-once counting is not decided.",
+      "Trusted: clang 14 + tbfscan, origin resolver, g++/clang++ for the witness; thorough adds the Specx variant through the declaration stub.",
+      "type-level witnesses + who-may-call / list-flag / container-role rules over executor summaries", "DESIGN.md §2 C09")
+
 _todo = "check not built yet in this round (see DESIGN.md §7 build order)"
-for p in ["C02","C06","C08","C09","C10","C11","C14","C15","C20"]:
+for p in ["C02","C06","C08","C10","C11","C14","C15","C20"]:
     NA[p] = _todo
 NA["C01"] = "exactly-once is a counting statement over all particle sets, heights, dimensions and groupings; no lint/effect/type argument bounds the list-builder arithmetic. Structural prerequisites are decided under C02/C03/C08/C11/C12."
 NA["C04"] = "bound on a floating-point truncation error over all positions/heights/orders: nothing about it is visible in the shape of the code (accumulate clause is under C08, code conventions under C11)."
